@@ -463,12 +463,12 @@ func (rn *c12Runner) runHistory(h *c12History, shimmed bool) {
 	in := map[string]string{"history": h.String(), "name": h.Name}
 	reused, err := rn.histOnce(h, true)
 	if err != nil {
-		res.Violate(common.Violation{Kind: "correspondence", Oracle: "history", Input: in, Detail: "worker: " + err.Error(), Key: rn.keyPrefix() + ":hist:worker"})
+		violate(res, common.Violation{Kind: "correspondence", Oracle: "history", Input: in, Detail: "worker: " + err.Error(), Key: rn.keyPrefix() + ":hist:worker"})
 		return
 	}
 	fresh, err := rn.histOnce(h, false)
 	if err != nil {
-		res.Violate(common.Violation{Kind: "correspondence", Oracle: "history", Input: in, Detail: "worker: " + err.Error(), Key: rn.keyPrefix() + ":hist:worker"})
+		violate(res, common.Violation{Kind: "correspondence", Oracle: "history", Input: in, Detail: "worker: " + err.Error(), Key: rn.keyPrefix() + ":hist:worker"})
 		return
 	}
 	res.Case("hist:"+h.String(), len(h.Steps) >= 2)
@@ -493,7 +493,7 @@ func (rn *c12Runner) runHistory(h *c12History, shimmed bool) {
 			continue
 		}
 		seen[fd.oracle] = true
-		res.Violate(common.Violation{Kind: "impl-violation", Oracle: fd.oracle, Input: in, Detail: fd.detail,
+		violate(res, common.Violation{Kind: "impl-violation", Oracle: fd.oracle, Input: in, Detail: fd.detail,
 			Key: rn.keyPrefix() + ":hist:" + fd.oracle + ":" + h.String()})
 	}
 	// no state beside the files
@@ -527,13 +527,13 @@ func (rn *c12Runner) runHistory(h *c12History, shimmed bool) {
 		}
 	}
 	if diff != "" {
-		res.Violate(common.Violation{Kind: "correspondence", Oracle: "cache-value-state", Input: in,
+		violate(res, common.Violation{Kind: "correspondence", Oracle: "cache-value-state", Input: in,
 			Detail: "a Put depends on more than the files (the model's put is a function of the file map): " + diff, Key: rn.keyPrefix() + ":hist:state:" + h.String()})
 	}
 	if shimmed && modelEligible(h) {
 		res.Count("history:model-compared")
 		if c := rn.histModel(h, fresh); c != "" {
-			res.Violate(common.Violation{Kind: "correspondence", Oracle: "faulty-history", Input: in, Detail: c, Key: rn.keyPrefix() + ":hist:corr:" + h.String()})
+			violate(res, common.Violation{Kind: "correspondence", Oracle: "faulty-history", Input: in, Detail: c, Key: rn.keyPrefix() + ":hist:corr:" + h.String()})
 		}
 	}
 }
@@ -583,7 +583,7 @@ func (rn *c12Runner) runRepeat(rc *repeatCase) {
 	resp, err := rn.w.call(map[string]any{"cmd": "repeat", "id": victim, "data": hex.EncodeToString(victimData),
 		"steps": []map[string]any{stepJSON(rc.Step)}, "n": rc.N, "nofile": rc.Nofile})
 	if err != nil {
-		res.Violate(common.Violation{Kind: "correspondence", Oracle: "repeat", Input: in, Detail: "worker: " + err.Error(), Key: rn.keyPrefix() + ":repeat:worker"})
+		violate(res, common.Violation{Kind: "correspondence", Oracle: "repeat", Input: in, Detail: "worker: " + err.Error(), Key: rn.keyPrefix() + ":repeat:worker"})
 		return
 	}
 	res.Case("repeat:"+rc.String(), true)
@@ -612,14 +612,14 @@ func (rn *c12Runner) runRepeat(rc *repeatCase) {
 		}
 	}
 	if !strings.HasPrefix(resp.Lookups[0].GetBytes, want) || !strings.HasPrefix(resp.Lookups[0].GetFile, "F ") {
-		res.Violate(common.Violation{Kind: "impl-violation", Oracle: "descriptor-exhaustion", Input: in,
+		violate(res, common.Violation{Kind: "impl-violation", Oracle: "descriptor-exhaustion", Input: in,
 			Detail: fmt.Sprintf("an intact entry (id3) was stored and read back; then %s was called %d times on the same Cache value (collector off, RLIMIT_NOFILE %d above the descriptors in use; first call: %s, last call: %s; descriptors open: %d before, %d after); now GetBytes(id3) = %s and GetFile(id3) = %s: calls that all returned have made an unrelated, intact entry unreadable",
 				call, rc.N, rc.Nofile, first, last, resp.NfdB, resp.NfdA, trunc(resp.Lookups[0].GetBytes), resp.Lookups[0].GetFile),
 			Key: rn.keyPrefix() + ":repeat:exhaustion:" + rc.String()})
 	}
 	for _, st := range resp.Hist {
 		if st.FdLeak != "" && st.Res != "crash" {
-			res.Violate(common.Violation{Kind: "impl-violation", Oracle: "fd-baseline", Input: in,
+			violate(res, common.Violation{Kind: "impl-violation", Oracle: "fd-baseline", Input: in,
 				Detail: call + " returned (" + st.Res + ") with descriptors still open: " + st.FdLeak, Key: rn.keyPrefix() + ":repeat:fd:" + rc.String()})
 			break
 		}
@@ -662,10 +662,18 @@ func c12Histories(tier string, seed uint64, shimmed bool) []c12History {
 			}
 		}
 	}
+	// A'. the same with PutNoVerify as the entry point of the last step
+	for a, ka := range readerKinds {
+		for c, kc := range readerKinds {
+			d := histZ
+			out = append(out, c12History{Name: fmt.Sprintf("three-puts-noverify/%d%d/size%d", a, c, len(d)), Pre: map[string][]byte{}, Undamaged: true,
+				Steps: []hStep{{ID: 0, Data: d, Reader: ka.spec, R: ka.r(len(d))}, {ID: 1, Data: d}, {API: "putnoverify", ID: 2, Data: d, Reader: kc.spec, R: kc.r(len(d))}}})
+		}
+	}
 	// B. the output of the faulty call is already stored for id3: every source behaviour, and (through
 	// the shim) every fault kind at each of the first operations, by Put and by PutBytes; then a healthy Put
 	for _, d := range [][]byte{histX, histZ, {}} {
-		for _, api := range []string{"", "putbytes"} {
+		for _, api := range []string{"", "putbytes", "putnoverify"} {
 			var faulty []hStep
 			for _, k := range readerKinds {
 				if api == "putbytes" && k.spec != "" {
@@ -676,7 +684,7 @@ func c12Histories(tier string, seed uint64, shimmed bool) []c12History {
 				}
 				faulty = append(faulty, hStep{API: api, ID: 0, Data: d, Reader: k.spec, R: k.r(len(d))})
 			}
-			if shimmed {
+			if shimmed && api != "putnoverify" {
 				for k := 0; k < 14; k++ {
 					for _, kind := range []string{"fail", "stopafter", "short", "torn"} {
 						faulty = append(faulty, hStep{API: api, ID: 0, Data: d, Plan: &c12Plan{k, kind, 1}})
